@@ -168,7 +168,8 @@ func ruleFanout(r *Run, p *Prog, name string) {
 			ok = g != nil && g.Name() == "ErrShortWrite" && g.Pkg.Pkg.Path() == "io"
 			d = "short write is recorded as io.ErrShortWrite"
 		case accNil && dOK && full:
-			ok = res == ssa.Value(errPhi)
+			// the accumulator is nil on this path: keeping it and storing nil are the same
+			ok = res == ssa.Value(errPhi) || isNilConst(res)
 			d = "success leaves the accumulator nil"
 		default:
 			ok = false
